@@ -242,6 +242,14 @@ fn build_s(m: &SrcModel, order: usize, split: usize, explicit_satisfy: bool, ext
             }
         }
     };
+    // "overrides any objective set earlier": in the builds that also declare unused variables a decoy objective
+    // (with a block, so that a stale one would leave auxiliaries behind) is set first whenever a real call follows
+    if extra_unused && (m.sense != Sense::Satisfy || explicit_satisfy) {
+        if let Some((first, _)) = m.vars.first() {
+            let decoy = bin(BinOp::Add, Exp::Abs(Box::new(bin(BinOp::Sub, var(first), num(1.0)))), num(7.0));
+            b = b.maximize(to_builder_s(&decoy, &handles, 0));
+        }
+    }
     let k = cons.len();
     let order = order.min(k);
     let split = split.min(k);
@@ -341,6 +349,13 @@ fn check_case(case: &Case, l: &mut Local) {
     for (desc, blm) in &builder_lms {
         match (blm, &lm_text) {
             (Ok(b), Ok(t)) => {
+                // a feasibility model carries no costs through any door (the constant itself differs: `solve`
+                // is the constant true in the text, 0 in the builder)
+                if m.sense == Sense::Satisfy && (b.objective().iter().any(|c| *c != 0.0) != t.objective().iter().any(|c| *c != 0.0)) {
+                    let d = format!("objective row of the satisfy model: builder {:?}, text {:?}", b.objective(), t.objective());
+                    l.violation(sig("builder-differs-from-text"), format!("[{desc}] {d}"), case_json(format!("{desc}: {d}")));
+                    return;
+                }
                 if let Some(d) = lm_diff_modulo_unused_pub(b, t) {
                     l.violation(sig("builder-differs-from-text"), format!("[{desc}] {d}"), case_json(format!("{desc}: {d}")));
                     return;
@@ -725,7 +740,7 @@ pub fn run(mut run: Run) -> ! {
     run.case_timeout_s = 60.0;
     let quick = run.quick();
     let depth = if quick { 1 } else { 2 };
-    run.rule = "generator-AST models (objective family and constraint family of C02/C01 over bounded declarations, objectives over three variables with different ranges, every row named) are expressed through: the fluent builder via operator overloads and helper functions (three operand spellings: Expr op Expr only; the most specific overload per operand pair over i32/f64 literals, Var handles, bool and helper functions over Var items; f64-only literals with Expr op &Expr) with EVERY call order (objective at each of the k+1 positions, every split of the constraints between with and with_all, satisfy explicit or defaulted, with and without two declared-but-unused variables), source text with inline constants, source text with the constants supplied through the API, PipeRunner chains (Compiler>PreModel>Model>LinearModel>MILP and >Auto; for continuous models also >RealSolver and >StandardLinearModel>Tableau>StepByStepSimplex), RoocSolver one-shot, plus compiled-in macro models that use every rule of constraint! (<=, >=, ==, <, >, ->, <->, bare logic; labelled and unlabelled), expr! with -> and <->, and every scalar and array declaration form of vars!; linear models are compared row for row (modulo unused builder variables), verdicts and optimal values across doors, pipe stage outputs with direct calls, values read back by variable name through every solving door (each declared variable has a value inside its domain and the source rows hold there), and values read back through handles, names and eval with the reference semantics; distinct = source texts; non-trivial = compiles".into();
+    run.rule = "generator-AST models (objective family and constraint family of C02/C01 over bounded declarations, objectives over three variables with different ranges, every row named) are expressed through: the fluent builder via operator overloads and helper functions (three operand spellings: Expr op Expr only; the most specific overload per operand pair over i32/f64 literals, Var handles, bool and helper functions over Var items; f64-only literals with Expr op &Expr) with EVERY call order (objective at each of the k+1 positions, every split of the constraints between with and with_all, satisfy explicit or defaulted, with and without two declared-but-unused variables and a decoy objective that the real objective call has to override), source text with inline constants, source text with the constants supplied through the API, PipeRunner chains (Compiler>PreModel>Model>LinearModel>MILP and >Auto; for continuous models also >RealSolver and >StandardLinearModel>Tableau>StepByStepSimplex), RoocSolver one-shot, plus compiled-in macro models that use every rule of constraint! (<=, >=, ==, <, >, ->, <->, bare logic; labelled and unlabelled), expr! with -> and <->, and every scalar and array declaration form of vars!; linear models are compared row for row (modulo unused builder variables), verdicts and optimal values across doors, pipe stage outputs with direct calls, values read back by variable name through every solving door (each declared variable has a value inside its domain and the source rows hold there), and values read back through handles, names and eval with the reference semantics; distinct = source texts; non-trivial = compiles".into();
     run.assume("identical expression trees must give identical linear models; the builder keeps unused variables, which are projected away; tolerance 1e-6 on optimal values and read-back");
     // the quick tier uses the full declaration / constant menus at context depth 1
     let n2 = c02::family_size_pub(depth, false);
